@@ -55,6 +55,9 @@ func TestVerifProcRun(t *testing.T) {
 	vWithSupervisor(t, func(root context.Context) {
 		o.emit(vRunRestart(t, root, w, 900000))
 		o.emit(vRunPreviousSet(t, root, w, 900001))
+		if os.Getenv("VERIF_PID") == "C14" || verifThorough() {
+			o.emit(vRunTickerAfterRestart(t, root, w, 900002)) // waits for the real 30-second ticker
+		}
 		for id := 0; id < n && atomic.LoadInt32(&vRunWedges) < 2; id++ {
 			o.emit(vRunOne(t, root, w, id))
 		}
@@ -151,6 +154,112 @@ func vRunPreviousSet(t *testing.T, root context.Context, w *vWorld, id int) *vRu
 			row.Mon = append(row.Mon, fmt.Sprintf("C01: inbound VAA stored although it does not verify against the current set: it names the previous set 0 (seven guardians, threshold 5) and carries %d signatures of that set, the node's current set is set 1 (four guardians); sent %d-th after the rotation", n, i+1))
 		}
 	}
+	return row
+}
+
+// the cleanup ticker belongs to a run of the loop: after the runnable has been run again on the same Processor, cleanup passes still
+// happen (about every 30 s).  A signed entry below quorum is aged by ten minutes between the two runs (nothing else touches the state
+// then); the second run must re-broadcast the node's observation at its first tick.  Real time: waits up to 50 s.
+func vRunTickerAfterRestart(t *testing.T, root context.Context, w *vWorld, id int) *vRunRow {
+	row := &vRunRow{K: "run", ID: id, Mon: []string{}, Shape: "n=4 own=0 cleanup tick after the runnable was run again"}
+	dir, err := os.MkdirTemp(os.Getenv("VERIF_TMP"), "procrun")
+	if err != nil {
+		t.Fatal(err)
+	}
+	defer os.RemoveAll(dir)
+	d, err := db.Open(dir)
+	if err != nil {
+		t.Fatal(err)
+	}
+	defer d.Close()
+	lockC := make(chan *common.MessagePublication)
+	setC := make(chan *common.GuardianSet)
+	sendC := make(chan []byte, 8192)
+	obsvC := make(chan *gossipv1.SignedObservation, 50)
+	p := NewProcessor(root, d, lockC, setC, sendC, obsvC, make(chan *gossipv1.ObservationRequest, 8192), make(chan *vaa.VAA), make(chan *gossipv1.SignedVAAWithQuorum, 50),
+		&ecdsasigner.ECDSAPrivateKey{Value: w.own}, common.NewGuardianSetState(nil), reporter.EventListener(zap.NewNop()), nil, w.govCh, w.govAddr)
+	start := func() (context.CancelFunc, chan string) {
+		ctx, cancel := context.WithCancel(root)
+		done := make(chan string, 1)
+		go func() {
+			defer func() {
+				if x := recover(); x != nil {
+					done <- fmt.Sprint(x)
+					return
+				}
+				done <- ""
+			}()
+			p.Run(ctx)
+		}()
+		return cancel, done
+	}
+	feed := func(done chan string, f func()) bool {
+		c := make(chan struct{})
+		go func() { f(); close(c) }()
+		select {
+		case <-c:
+			row.Fed++
+			return true
+		case msg := <-done:
+			row.Mon = append(row.Mon, "processor panicked: "+msg+" (Run loop)")
+			return false
+		case <-time.After(20 * time.Second):
+			row.Mon = append(row.Mon, "harness: Run loop did not accept an input within 20 s")
+			return false
+		}
+	}
+	gs := w.set([]int{-1, 10, 11, 12}, 0)
+	k := w.msg(0)
+	cancel1, done1 := start()
+	ok := feed(done1, func() { setC <- gs }) && feed(done1, func() { lockC <- k })
+	for i := 0; i < 100 && (len(obsvC) > 0 || i < 10); i++ {
+		time.Sleep(20 * time.Millisecond)
+	}
+	cancel1()
+	select {
+	case <-done1:
+	case <-time.After(5 * time.Second):
+		row.Mon = append(row.Mon, "harness: Run did not return within 5 s of its context being cancelled")
+		ok = false
+	}
+	if !ok {
+		return row
+	}
+	// between the runs: the entry is ten minutes old
+	n := 0
+	for _, s := range p.state.vaaSignatures {
+		if s.ourMsg != nil {
+			s.firstObserved = time.Now().Add(-10 * time.Minute)
+			s.settled = true // (as after the tick at 30 s of its life; an unsettled entry is only settled by its first tick)
+			n++
+		}
+	}
+	if n == 0 {
+		row.Mon = append(row.Mon, "harness: the observed message left no signed entry behind")
+		return row
+	}
+	for len(sendC) > 0 {
+		<-sendC
+	}
+	cancel2, _ := start()
+	defer cancel2()
+	retried := false
+	deadline := time.After(50 * time.Second)
+	for !retried {
+		select {
+		case m := <-sendC:
+			var g gossipv1.GossipMessage
+			if proto.Unmarshal(m, &g) == nil {
+				if _, is := g.Message.(*gossipv1.GossipMessage_SignedObservation); is {
+					retried = true
+				}
+			}
+		case <-deadline:
+			row.Mon = append(row.Mon, "C14: no cleanup pass ran within 50 s after the processor's runnable was run again on the same Processor (the loop's ticker fires every 30 s): a signed entry without quorum, ten minutes old, was not re-broadcast — pending entries are never retried or expired any more")
+			return row
+		}
+	}
+	row.Sent++
 	return row
 }
 
